@@ -3,6 +3,7 @@ package main
 import (
 	"go/types"
 	"sort"
+	"strings"
 
 	"golang.org/x/tools/go/ssa"
 )
@@ -60,7 +61,7 @@ func (p *Prog) reachableFrom(roots []*ssa.Function) []*ssa.Function {
 	}
 	var out []*ssa.Function
 	for f := range seen {
-		if f.Synthetic == "" {
+		if f.Synthetic == "" || strings.HasPrefix(f.Synthetic, "range-over-func") {
 			out = append(out, f)
 		}
 	}
